@@ -12,8 +12,15 @@ def make_pair(world, key=None, relay=False, listen_s=True, listen_r=True, key_r=
     """relay_r: the receiver's own relay hint when it differs from the sender's"""
     r = world.reactor
     key = key or world.work_rng.randbytes(32)
-    s = transit.TransitSender(RELAY_HINT if relay else None, no_listen=not listen_s, reactor=r)
-    rc = transit.TransitReceiver((relay_r or RELAY_HINT) if relay else None, no_listen=not listen_r, reactor=r)
+    # (one application, one timing object: in a third of the pairs both Transit objects are given the same DebugTiming,
+    #  as the documented `timing=` argument allows; their connect() calls overlap)
+    kw = {}
+    if world.work_rng.random() < 0.34:
+        from wormhole.timing import DebugTiming
+        kw["timing"] = DebugTiming()
+        world.shared_timing_pairs = getattr(world, "shared_timing_pairs", 0) + 1
+    s = transit.TransitSender(RELAY_HINT if relay else None, no_listen=not listen_s, reactor=r, **kw)
+    rc = transit.TransitReceiver((relay_r or RELAY_HINT) if relay else None, no_listen=not listen_r, reactor=r, **kw)
     s.set_transit_key(key)
     rc.set_transit_key(key_r or key)
     return s, rc, key
